@@ -82,10 +82,24 @@ def module_functions(m):
         chain = [abi_value("mod", st["mod"], k), abi_value("type", st["type"], k)]
         out.append({"role": "dtor", "item": "destroy", "default": "%s_destroy" % ty, "chain": chain,
                     "names": chain_names(chain, "%s_destroy" % ty)})
+    # extra types of the same module: nothing written on the first type, its impl or its methods may reach them
+    extra = m.get("extra")
+    if extra == "sibling":
+        # a second opaque type declared (with its impl) AFTER the first impl block: inherits the module level only
+        for role, item, suffix in (("method", "U.sm", "sm"), ("dtor", "U.destroy", "destroy")):
+            chain = [abi_value("mod", st["mod"], k)]
+            out.append({"role": role, "item": item, "default": "Zq%dU_%s" % (k, suffix), "chain": chain, "names": chain_names(chain, "Zq%dU_%s" % (k, suffix))})
+    elif extra == "nested":
+        # a bridge module nested inside this one is expanded by its own macro invocation: it inherits nothing from the outer module
+        for role, item, suffix in (("method", "V.sm", "sm"), ("dtor", "V.destroy", "destroy")):
+            out.append({"role": role, "item": item, "default": "Zq%dV_%s" % (k, suffix), "chain": [], "names": chain_names([], "Zq%dV_%s" % (k, suffix))})
     for f in out:
         f["renamed"] = any(c is not None for c in f["chain"])
         f["pinned"] = f["names"]["A"] == f["names"]["B"]
         src = [(lv, c) for lv, c in zip(("mod", "impl", "method") if f["role"] == "method" else ("mod", "type"), f["chain"]) if c is not None]
+        if "." in f["item"]:
+            f["shape"] = "%s-type:%s" % (extra, "default" if not src else "mod:" + ("pattern" if "{0}" in src[-1][1] else "literal"))
+            continue
         f["shape"] = "default" if not src else "%s:%s%s" % (src[-1][0], "pattern" if "{0}" in src[-1][1] else "literal", "+outer" if len(src) > 1 else "")
     return out
 
@@ -139,8 +153,21 @@ def enabled_items(m, backend):
     meths = set(m.get("methods", METHODS))
     items = meths | ({"destroy"} if m["owner"] in OPAQUE_OWNERS else set())
     a = m["attr"]
+    extra_items = {"sibling": {"U.sm", "U.destroy"}, "nested": {"V.sm", "V.destroy"}}.get(m.get("extra"), set())
     if a[0] != "disable" or not cond_holds(a[2], backend):
-        return items
+        return items | extra_items
+    if m.get("extra") == "sibling" and a[1] != "mod":
+        # attributes on the first type / its impl / its method do not concern the sibling type
+        items_sib = extra_items
+    else:
+        items_sib = set()
+    if m.get("extra") == "nested":
+        raise ValueError("nested modules are only generated without disable attributes")
+    if a[1] in ("mod", "type"):
+        return set() | items_sib
+    if a[1] == "impl":
+        return (items - meths) | items_sib
+    return (items - {"im"}) | items_sib
     if a[1] in ("mod", "type"):
         return set()
     if a[1] == "impl":
@@ -194,13 +221,18 @@ def module_src(m):
     put("        ", _abi_line("method", st["method"], k, "im"), attr_line(a, "method", k))
     L.append("        pub fn im(%s) -> u8 { 7 }" % slf)
     L.append("    }")
+    if m.get("extra") == "sibling":
+        L += ["    #[diplomat::opaque]", "    pub struct Zq%dU;" % k, "    impl Zq%dU {" % k, "        pub fn sm(x: u8) -> u8 { x }", "    }"]
+    elif m.get("extra") == "nested":
+        L += ["    #[diplomat::bridge]", "    pub mod n%d {" % k, "        #[diplomat::opaque]", "        pub struct Zq%dV;" % k, "        impl Zq%dV {" % k,
+              "            pub fn sm(x: u8) -> u8 { x }", "        }", "    }"]
     L.append("}")
     return "\n".join(L) + "\n"
 
 
 CRATE_HEAD = "#![allow(unused, non_snake_case, non_camel_case_types, clippy::all)]\n// generated by /verif/checks/c06.py\n"
 
-TOKEN = re.compile(r"(?:Zq(\d+)T|zq6l(\d+)x|[Rr]q(\d+)[Nn])")
+TOKEN = re.compile(r"(?:Zq(\d+)[TUV]|zq6l(\d+)x|[Rr]q(\d+)[Nn])")
 
 
 def module_of(sym):
